@@ -82,6 +82,9 @@ def gen_perm_twice(r, n):
     # the executable is busy (held open by a writer) when the call starts, and is given away while the call is under way
     for _ in range(max(2, n // 60)):
         ops.append(f"ex.busy how={r.pick(['chown', 'chmod'])} after_ms={r.range(10, 120)}")
+    # two overlapping calls on one executable; the file is replaced by a non-root owner's while both are under way
+    for _ in range(max(2, n // 80)):
+        ops.append(f"ex.queue slow_ms={r.pick([500, 600, 700])} gap_ms={r.range(20, 80)} swap_ms={r.range(100, 200)}")
     # relative paths with a directory component (resolved against fan2go's working directory, for the check AND the start)
     for path in ["bin/probe.sh", "./bin/probe.sh", "bin/../bin/probe.sh"]:
         ops.append(f"ex.rel path={path}")
@@ -164,6 +167,9 @@ def gen_exec(r, n):
     body.append(f"ex.userpair beh={r.pick(['sleep', 'execsleep'])} first={r.pick(['fanpwm', 'fanrpm', 'fanset'])} "
                 f"second={r.pick(['fanpwm', 'fanrpm', 'fanset', 'rpmavg'])} gap_ms={r.range(50, 400)}")
     body.append(f"ex.userpair beh={r.pick(['sleep', 'execsleep'])} first={r.pick(['fanpwm', 'fanrpm'])} second=rpmavg gap_ms={r.range(50, 400)}")
+    # the executable is held open by a writer for longer than the call's timeout: an error in time, no endless retrying
+    t = r.pick([200, 300, 500])
+    body.append(f"ex.busyhold timeout_ms={t} hold_ms={t + r.range(900, 1600)}")
     # the same failing command polled for > 5 s (a dead sensor command under the monitor)
     body.append(f"ex.repeat beh={r.pick(['exit3', 'exit3out', 'notexec'])} n=13 gap_ms=450")
     # a cmd fan is handed ANY int (restorePwmEnabled writes back what getPwm printed at start-up)
